@@ -183,7 +183,8 @@ pub fn run(r: &Report) {
          null/explicit/confidential fields with both parity prefixes, legacy/dynafed headers with null/compact/full params, \
          varint boundaries 252/253/65535/65536{}), plus blinder outputs; byte side: every string at 1 deviation from each distinct \
          encoding (substitution menu, truncation, extension, insertion, deletion, non-minimal varint rewrite, huge length) — all \
-         positions for encodings <= 420 bytes, windowed otherwise — 2 deviations for encodings <= {} bytes, and all strings of \
+         positions for encodings <= 420 bytes, windowed otherwise; every length / count field of EVERY transaction / block / header encoding \
+         (via the reference parse tree) rewritten to each non-minimal width and to value +-1 — 2 deviations for encodings <= {} bytes, and all strings of \
          length <= {} for each of 16 decoders. non-trivial = distinct valid encodings (value side)",
         if thorough { "/4000000" } else { "" },
         d2_max,
@@ -387,6 +388,25 @@ pub fn run(r: &Report) {
         r.set_extra("encodings_long_skipped", json!(encs.len() - work.len()));
     }
     work.par_iter().for_each(|(ty, e)| neighbourhood(r, ty, e, d2_max));
+    // structure-aware pass over ALL encodings of the composite types, however long: every length / count field
+    // of the reference parse tree rewritten to each non-minimal width and to value +-1
+    let structured = std::sync::atomic::AtomicU64::new(0);
+    encs.par_iter().for_each(|(ty, e)| {
+        let marks = match *ty {
+            "Transaction" => crate::oracle::parse::tx_marks(e),
+            "Block" => crate::oracle::parse::block_marks(e),
+            "BlockHeader" => crate::oracle::parse::header_marks(e),
+            _ => None,
+        };
+        if let Some(m) = marks {
+            let mut f = |b: &[u8]| {
+                dispatch_bytes(r, ty, b);
+            };
+            let n = crate::oracle::parse::varint_field_deviations(e, &m, &mut f);
+            structured.fetch_add(n, std::sync::atomic::Ordering::Relaxed);
+        }
+    });
+    r.set_extra("length_field_deviations", json!(structured.load(std::sync::atomic::Ordering::Relaxed)));
     for (ty, e) in work.iter().take(3) {
         r.sample(json!({"type": ty, "valid_encoding": hex_short(e)}));
     }
